@@ -50,6 +50,8 @@ pub enum WStep {
     /// Bob, while an active member of G, fulfils his obligation to rotate his key (self_update,
     /// merged at once, handed to Alice and Carol): a later re-invitation must create a new one
     BobSelfUpdates,
+    /// Carol asks to leave G; only Bob (no admin: he queues the request) gets to see it
+    CarolProposesLeaving,
 }
 
 #[derive(Clone, Debug, PartialEq, Eq, Hash, Serialize, Deserialize)]
@@ -586,6 +588,14 @@ impl Run {
                                     format!("{what}: {}", mine.map(|m| crate::oracles::diff_levels(&m, level_at_invite)).unwrap_or("no group".into())),
                                 ));
                             }
+                            // ... and nothing of an earlier membership comes along
+                            let f = on_mdk!(&self.bob.mdk, m => fp::full(m, &target));
+                            if f.pending_proposal_count != 0 || !f.pending_removes.is_empty() || !f.pending_adds.is_empty() || f.pending_commit {
+                                return Err(Failure::new(
+                                    "joiner-state-differs-from-inviters",
+                                    format!("{what}: the group just joined already holds {} pending proposal(s) (removals {:?}, additions {:?}), pending commit: {}", f.pending_proposal_count, f.pending_removes.iter().map(|p| crate::fingerprint::sh(p, 8)).collect::<Vec<_>>(), f.pending_adds.iter().map(|p| crate::fingerprint::sh(p, 8)).collect::<Vec<_>>(), f.pending_commit),
+                                ));
+                            }
                             self.classes.insert("accepted-valid-invitation".into());
                         }
                     }
@@ -641,12 +651,29 @@ impl Run {
                 self.alice_thinks_bob_member = false;
                 self.note("Alice removes Bob from G".into());
             }
+            WStep::CarolProposesLeaving => {
+                let g = self.g.clone();
+                let active = on_mdk!(&self.bob.mdk, m => m.get_group(&g)).ok().flatten().map(|r| r.state.as_str() == "active").unwrap_or(false);
+                if !active || !self.alice_thinks_bob_member {
+                    return Ok(());
+                }
+                let Ok(r) = on_mdk!(&self.carol.mdk, m => m.leave_group(&g)) else { return Ok(()) };
+                let _ = on_mdk!(&self.carol.mdk, m => m.clear_pending_commit(&g));
+                let out = on_mdk!(&self.bob.mdk, m => m.process_message(&r.evolution_event));
+                if matches!(out, Ok(mdk_core::messages::MessageProcessingResult::PendingProposal { .. })) {
+                    self.classes.insert("recipient-queued-a-proposal-before-being-removed-or-re-invited".into());
+                }
+                self.note("Carol asks to leave G; only Bob sees the request".into());
+            }
             WStep::BobSelfUpdates => {
                 let g = self.g.clone();
                 let active = on_mdk!(&self.bob.mdk, m => m.get_group(&g)).ok().flatten().map(|r| r.state.as_str() == "active").unwrap_or(false);
                 if !active || !self.alice_thinks_bob_member {
                     return Ok(());
                 }
+                // (a commit that carries queued proposals along - listed finding O9 - is by design
+                // not counted as the plain key rotation the obligation asks for)
+                let queued = on_mdk!(&self.bob.mdk, m => fp::full(m, &g)).pending_proposal_count;
                 let Ok(r) = on_mdk!(&self.bob.mdk, m => m.self_update(&g)) else { return Ok(()) };
                 if on_mdk!(&self.bob.mdk, m => m.merge_pending_commit(&g)).is_err() {
                     return Ok(());
@@ -655,7 +682,7 @@ impl Run {
                 let _ = on_mdk!(&self.carol.mdk, m => m.process_message(&r.evolution_event));
                 let rec = on_mdk!(&self.bob.mdk, m => m.get_group(&g)).ok().flatten();
                 if let Some(rec) = rec {
-                    if matches!(rec.self_update_state, mdk_storage_traits::groups::types::SelfUpdateState::Required) {
+                    if queued == 0 && matches!(rec.self_update_state, mdk_storage_traits::groups::types::SelfUpdateState::Required) {
                         return Err(Failure::new("self-update-not-recorded", "Bob merged his self-update, the group still says a rotation is required".to_string()));
                     }
                 }
@@ -760,6 +787,7 @@ fn step_strategy() -> impl Strategy<Value = WStep> {
         2 => Just(WStep::AliceRemovesBob),
         1 => Just(WStep::BobRestart),
         2 => Just(WStep::BobSelfUpdates),
+        2 => Just(WStep::CarolProposesLeaving),
     ]
 }
 
@@ -771,7 +799,7 @@ pub fn main(args: &Args) -> i32 {
     let spec = Spec {
         id: "C16",
         level: "exploration",
-        rule: "histories over one recipient (memory or SQLite, optionally already a member of a second group H): valid invitations from the group's admin, invitations built by an outsider for a fresh MLS group id or for the id of a group the recipient holds (G or H) carrying a fresh Nostr group id or the one of G or H, malformed copies (8 ways), each processed under up to three wrapper ids, repeatedly, accepted / declined / left unanswered, interleaved with peer messages in G and H, the recipient's own key rotation, removal and re-invitation, restarts. Judged after every call: same wrapper => same welcome and nothing changes; same rumor under a new wrapper => stored welcome returned unchanged, nothing created; a failed / declined / unanswered invitation never yields an Active group; accept => inviter's post-commit state, Active, self-update Required and listed; every group Active before is identical after and still stores a fresh peer message. Non-trivial = an invitation for an MLS group id the recipient holds, a second wrapper id for the same rumor, or outsider-supplied group data; distinct = distinct histories".into(),
+        rule: "histories over one recipient (memory or SQLite, optionally already a member of a second group H): valid invitations from the group's admin, invitations built by an outsider for a fresh MLS group id or for the id of a group the recipient holds (G or H) carrying a fresh Nostr group id or the one of G or H, malformed copies (8 ways), each processed under up to three wrapper ids, repeatedly, accepted / declined / left unanswered, interleaved with peer messages in G and H, the recipient's own key rotation, a peer's request to leave that only the recipient has queued, removal and re-invitation, restarts. Judged after every call: same wrapper => same welcome and nothing changes; same rumor under a new wrapper => stored welcome returned unchanged, nothing created; a failed / declined / unanswered invitation never yields an Active group; accept => inviter's post-commit state with no pending proposal or commit, Active, self-update Required and listed; every group Active before is identical after and still stores a fresh peer message. Non-trivial = an invitation for an MLS group id the recipient holds, a second wrapper id for the same rumor, or outsider-supplied group data; distinct = distinct histories".into(),
         assumptions: vec![
             "the NIP-59 gift-wrap layer is outside mdk: wrapper ids are harness-chosen, rumor ids are the NIP-01 hash".into(),
             "key packages are last-resort packages (as mdk creates them), so one package serves several invitations".into(),
